@@ -4,14 +4,52 @@ import json, os
 
 ALL = [f"C{i:02d}" for i in range(1, 21)]
 
+PBT = "property-based testing (Hypothesis) with generated grammars and an independent reference model"
+NOTE = "Trusted base: Hypothesis generators, the reference model in vk/refmodel.py (cross-checked against brute force for minimum depths), harness-owned random sources; inputs restricted to documented declaration forms; bounds per tier are in the evidence."
 CHECKS = {
- "C18": dict(
-   level="exploration",
-   text="Generated-input search (Hypothesis) over sources x primitive-call sequences x bounds, plus complete enumeration of all draws of choice_weighted (totals <= 2000) and of every decision path of BaseDecider.random_int; each result judged against the primitive's stated contract and a same-seed twin. Exhaustive only inside the stated finite sub-families; elsewhere sampled.",
-   note="Trusts Hypothesis' generator and the harness-owned ScriptedSource/FixedSource; gene lists non-empty with values in 0..sys.maxsize; float bounds with 1e-9 relative tolerance.",
-   technique="property-based testing (Hypothesis) + exhaustive enumeration of random draws via scripted RandomSource",
-   design="§2 C18"),
+ "C01": dict(level="exploration", design="§2 C01", technique=PBT + "; op-sequence generation over 5 representations",
+   text="Generated grammars x representations x deciders x op sequences (create/map/mutate/crossover/search); every produced program and every fitness-function argument judged by the reference well-typedness predicate; escaping exceptions must be library errors. Sampled, bounded depth and sequence length."),
+ "C02": dict(level="exploration", design="§2 C02", technique=PBT + "; exhaustive enumeration of metahandler draws via scripted RandomSource",
+   text="Every shipped metahandler under generated parameters and sources (all decision paths when <= 20000): generated value satisfies the documented predicate and validate() accepts it; refined fields of every produced program judged against actual siblings."),
+ "C03": dict(level="exploration", design="§2 C03", technique=PBT + "; exhaustive enumeration of creation decision paths at the depth frontier",
+   text="Depth limits d >= grammar minimum: no exception, reference depth <= d after every operation; d < minimum: library error before any random draw; all decision paths at the frontier for small grammars; depth-taking initialisers."),
+ "C04": dict(level="exploration", design="§2 C04", technique="exhaustive enumeration of ALL random decision sequences (scripted RandomSource odometer) against a reference bounded language; grammars drawn by Hypothesis",
+   text="For finite-choice grammars the set of programs reachable by grow creation over all decision paths is compared (missing/extra) with the reference language of depth <= d; PI-grow and FullDecider containment; FullInitializer vs full language. Exhaustive per (grammar, depth) pair, sampled over grammars."),
+ "C05": dict(level="exploration", design="§2 C05", technique=PBT + "; differential against reference fixpoints, brute-force cross-check, shipped grammars imported",
+   text="alternatives, distanceToTerminal, recursive_prods and usable_grammar() compared with independent reference computations on generated hierarchies (both depth modes) and every shipped grammar."),
+ "C06": dict(level="exploration", design="§2 C06", technique=PBT + "; exhaustive GE cut points for gene lengths <= 16",
+   text="Linear/structured crossover: every child gene comes from a parent at the same locus; mutation Hamming distance <= 1 and same shape; tree crossover: child = base parent with one position replaced by well-typed material of the other parent."),
+ "C07": dict(level="exploration", design="§2 C07", technique=PBT + "; interleaved op sequences with a recording shared RandomSource",
+   text="Every genotype is re-mapped after every operation (and by a second representation instance): same canonical program, zero draws from the shared source (dSGE: only while the genotype grows)."),
+ "C08": dict(level="exploration", design="§2 C08", technique="differential testing across child interpreters (PYTHONHASHSEED, allocation patterns, import orders) driven by Hypothesis-drawn configurations",
+   text="Same configuration and seed run twice in-process and in >= 3 fresh interpreters with perturbed hash seed / heap layout / import order must evaluate the same program sequence and return the same best. Environments are sampled."),
+ "C09": dict(level="exploration", design="§2 C09", technique=PBT + "; generated step-composition histories with deep snapshots of all earlier populations",
+   text="After every step of a generated history the deep snapshot (program, genes, node metadata, cached fitness) of every individual of every earlier population is unchanged."),
+ "C10": dict(level="exploration", design="§2 C10", technique=PBT + "; grammar snapshots after every (also failing) operation",
+   text="Grammars with infeasible dependent contexts: grammar snapshot identical after every operation; creatable set (all decision paths) equal before and after an operation burst."),
+ "C11": dict(level="exploration", design="§2 C11", technique=PBT + "; independent traversal as oracle for per-node metadata",
+   text="Every node of every produced program (creation, mutation, crossover; tree/GE/SGE/dSGE): gengy_nodes, distance, weighted size and type index equal an independent traversal."),
+ "C12": dict(level="exploration", design="§2 C12", technique="exhaustive enumeration of fitness histories over {0,1,2} (length <= 7/9) + Hypothesis histories + observed searches, against a reference fold",
+   text="Best individual, is_best flags and returned individual agree with a reference fold at every tracker call, registration and budget check. Exhaustive within the small-history family."),
+ "C13": dict(level="exploration", design="§2 C13", technique=PBT + "; invocation logging with a value-changing fitness function; parallel-vs-sequential differential with harness-owned worker jitter",
+   text="Stored fitness == fitness function of the program, aggregate formula, at most one invocation per (individual, problem), counter == invocations, ParallelEvaluator == SequentialEvaluator."),
+ "C14": dict(level="exploration", design="§2 C14", technique=PBT + "; spy budgets on every budget node, bounded-termination with livelock detection",
+   text="Every budget verdict equals the reference predicate, the search stops at the first true check, nothing is evaluated afterwards, count window n <= total < n+k. Liveness bounded (cap = inconclusive)."),
+ "C15": dict(level="exploration", design="§2 C15", technique="exhaustive enumeration of (size, weight vector) configurations + Hypothesis step compositions / initialisers / GP runs",
+   text="len(step.apply(.., k)) == k for all small Parallel/ExclusiveParallel configurations and generated nestings over list/Population/iterator inputs; initialisers; every GP generation has population_size members."),
+ "C16": dict(level="exploration", design="§2 C16", technique="exhaustive enumeration of small populations + Hypothesis populations + GP runs with a counting elitism step",
+   text="Elitism returns exactly k, a sub-multiset, no excluded strictly better; best fitness per generation monotone when the top-level elitism step has >= 1 slot."),
+ "C17": dict(level="exploration", design="§2 C17", technique=PBT + "; exhaustive enumeration of all random draws (scripted source) for small populations; reference lexicase",
+   text="Tournament winners are members and at least as fit as recorded participants; lexicase winners survive the reference filter for some case order among the still-available candidates; all outcomes for populations <= 4."),
+ "C18": dict(level="exploration", design="§2 C18", technique="property-based testing (Hypothesis) + exhaustive enumeration of random draws via scripted RandomSource",
+   text="Generated-input search over sources x primitive-call sequences x bounds, plus complete enumeration of all draws of choice_weighted (totals <= 2000) and of every decision path of BaseDecider.random_int; each result judged against the primitive's stated contract and a same-seed twin."),
+ "C19": dict(level="exploration", design="§2 C19", technique=PBT + "; boundary/all-draw enumeration of weight-aware choosers",
+   text="Per-rule weights non-negative, sum to 1, keep declared ratios, stable under re-extraction; choosers never return a zero-weight production while a positive one is available."),
+ "C20": dict(level="fault_enumeration", design="§2 C20", technique="property-based testing (Hypothesis) of recorder configurations and histories + enumerated SIGKILL points in child processes against a prefix oracle",
+   text="File re-read at every registration: header + complete rows equal to the reference rows and a prefix of later states; child processes killed before/after the CSV recorder at every registration index (thorough) leave exactly the expected prefix."),
 }
+for c in CHECKS.values():
+    c.setdefault("note", NOTE)
 
 def main():
     checks = []
@@ -30,7 +68,7 @@ def main():
             "level_note": c["note"],
             "technique": c["technique"],
         })
-    na = [{"property_id": p, "reason": "check not built yet in this session (planned: see DESIGN.md §2); nothing is claimed for it"} for p in ALL if p not in CHECKS]
+    na = [{"property_id": p, "reason": "no check built; nothing is claimed for it"} for p in ALL if p not in CHECKS]
     m = {
         "version": 1,
         "setup_cmd": "/venv/bin/python -c 'import hypothesis' 2>/dev/null || /venv/bin/pip install --no-index --find-links /opt/veriftools/wheels hypothesis",
